@@ -6,7 +6,7 @@ import ast
 
 from ..index import walk_no_nested
 from ..report import Result
-from ..rules import rg_mass
+from ..rules import rb_states, rg_mass, rw_layering
 from ..source import AnalysisError, src
 
 BACKEND = "lightworks/emulator/backend/backend.py"
@@ -94,6 +94,17 @@ def check(ctx) -> Result:
                 branches[name] = n_.body
     if set(branches) != {"permanent", "slos"}:
         raise AnalysisError("Backend.full_probability_distribution: permanent/slos branches not found")
+    def resolve(e, body):
+        """follow single-assignment locals of the branch"""
+        for _ in range(3):
+            if isinstance(e, ast.Name):
+                d = [a.value for s_ in body for a in ast.walk(s_) if isinstance(a, ast.Assign) and len(a.targets) == 1 and src(a.targets[0]) == e.id]
+                if len(d) == 1:
+                    e = d[0]
+                    continue
+            break
+        return e
+
     def facts(body):
         pads = [src(s) for s in body if isinstance(s, ast.If) and "loss_modes" in src(s.test) and any(isinstance(x, ast.Assign) and isinstance(x.targets[0], ast.Name) for x in s.body)]
         cmps = []
@@ -102,11 +113,11 @@ def check(ctx) -> Result:
         for s in body:
             for x in ast.walk(s):
                 if isinstance(x, ast.Compare) and "settings." in src(x):
-                    cmps.append((src(x.left).replace(" ", ""), type(x.ops[0]).__name__, src(x.comparators[0])))
+                    cmps.append((src(resolve(x.left, body)).replace(" ", ""), type(x.ops[0]).__name__, src(x.comparators[0])))
                 if isinstance(x, (ast.Assign, ast.AugAssign)):
                     t = x.targets[0] if isinstance(x, ast.Assign) else x.target
                     if isinstance(t, ast.Subscript) and src(t.value) == "pdist":
-                        stores.append(src(x.value).replace(" ", ""))
+                        stores.append(src(resolve(x.value, body)).replace(" ", ""))
                 if isinstance(x, ast.Subscript) and isinstance(x.slice, ast.Slice) and x.slice.upper is not None and "n_modes" in src(x.slice.upper) and x.slice.lower is None:
                     slices.append(src(x.slice.upper))
         return pads, cmps, stores, slices
@@ -124,6 +135,17 @@ def check(ctx) -> Result:
             f"a value that is not abs(amplitude)**2 is stored as probability: {fp[2]} / {fs[2]}", construct=str(fp[2]) + str(fs[2]))
     res.add(set(fp[3]) == set(fs[3]) == {"circuit.n_modes"}, "S-backend-siblings", "marginalisation", b.site(), b.qualname, "both branches marginalise outputs to the first n_modes modes",
             f"outputs are truncated differently: {fp[3]} vs {fs[3]}", construct=str(fp[3]) + str(fs[3]))
+    # amplitudes come from the owning primitives only; the truncation setting is read only at the truncation sites
+    rw_layering.who_may_call(ctx, res, {"perm"}, {"Permanent.calculate"}, "W-permanent-owner", "the permanent is normalised by the factorials of *all* input and output occupations in one place", 1)
+    rw_layering.who_may_call(ctx, res, {"partition"}, {"Permanent.calculate"}, "W-permanent-owner", "sub-matrix selection belongs to Permanent.calculate", 1)
+    rw_layering.who_may_read_attr(ctx, res, "sampler_probability_threshold", {"Backend.full_probability_distribution", "QuickSampler._calculate_probabiltiies"}, "W-truncation-sites",
+                                  "the per-state truncation applies to output-state probabilities only (amplitudes below it can still interfere)", 3)
+    amp_src = {"permanent": "Permanent.calculate", "slos": "SLOS.calculate"}
+    for name, body in branches.items():
+        callee = [c for s_ in body for c in ast.walk(s_) if isinstance(c, ast.Call) and src(c.func) == amp_src[name]]
+        res.add(bool(callee), "G3-probability-not-amplitude", f"{name}:amplitude source", b.site(), b.qualname, f"amplitudes come from {amp_src[name]}", f"{name} branch no longer takes its amplitudes from {amp_src[name]}", construct=name)
+    # shortcut distributions are guarded by a photon count of the same space (rb_states B6)
+    rb_states.run(ctx, res, only=["Backend.full_probability_distribution", "Sampler.probability_distribution", "pdist_calc"], rules={"B6-shortcut-guard-space", "B1-backend-arguments", "B1-loss-padding", "B1-marginalise-loss-modes"})
     # zero-photon input shortcut yields the circuit-mode vacuum with probability 1
     z = [n_ for n_ in walk_no_nested(b.node) if isinstance(n_, ast.If) and src(n_.test).replace(" ", "") == "input_state.n_photons==0"]
     okz = bool(z) and any(isinstance(s, ast.Assign) and src(s.value).replace(" ", "") in ("{State([0]*circuit.n_modes):1.0}", "{State([0]*circuit.n_modes):1}") for s in z[0].body)
